@@ -205,6 +205,19 @@ CHECKS = {
              "sign only. Three known findings (DUMP1/DUMP2 MC2-3 id, Sulfur sum, Uranium pseudoDensity).",
         technique="TLA+ identifier-encoding / directory / factory specs + TLC evaluated over the exported live nuclide and material tables; encoder and factory edges replayed on real code",
     ),
+    "C06": dict(
+        text="DbHistory.tla models the live state (objects with serials, locations, parameters, time) and two database files as ordered snapshot lists with Assign / Move / "
+             "Birth / Advance / Write / WriteRefused / Load / Merge / Split / Close actions; Isolation, Chronological, HistoryCorrect (by identity, default for unset), "
+             "HistoryByLocationCorrect, MergeCopiesExactly, SplitCopiesExactly, SuccessMark are invariants / action properties. RunWithDb.tla EXTENDS the C15 Operator spec "
+             "with the database and main interfaces, a Fail action at every hook dispatch of a faulting interface and Restart(fromDB); AbortedRunLeavesFile, "
+             "CompletedRunIsSuccessful, SnapshotsHoldStateAtWrite, RestartHoldsWholeHistory ... are checked exhaustively over all single failure points of <= 2 cycles. "
+             "Edges are replayed on a real Database (five history query families, dumps of closed files), printed runs are executed by a real Operator inside `with o:` "
+             "with the file left in the working directory compared with the prediction, and recorded database histories are validated by TLC.",
+        design="3/C06 and 9",
+        note="Trusted: TLC, the rig from harness/gen_operator.py, h5py dumps. Quick replays a class-stratified sample of edges/runs (thorough ~10x more); failures inside the "
+             "database writer are excluded by the statement; MPI paths not modelled.",
+        technique="TLA+ database-history spec and run-with-failures spec (extends the operator spec) + TLC fault enumeration; replay on a real Database and real Operator runs; TLC trace validation",
+    ),
 }
 
 NOT_YET = "no specification-bound check has been built for this property yet in this session (planned, see DESIGN.md section 3)"
